@@ -114,6 +114,17 @@ pub fn pcs_shape(p: &Params, mix: &[usize], s: usize, layout: usize) -> PcsShape
 /// admits them only with a one-coefficient final polynomial.
 pub fn pcs_extra_shapes() -> Vec<PcsShape> {
     let mut v = vec![];
+    // wide folds: max_log_arity 4..=7 (the in-circuit one-hot selector has dedicated code up to
+    // arity 16 and a generic arm beyond), one tall matrix folded by the full arity first, alone
+    // and with a second matrix exactly one full fold below
+    for a in [4usize, 5, 6, 7] {
+        for (log_blowup, log_final_poly_len) in [(1usize, 0usize), (2, 1)] {
+            let p = Params { log_blowup, log_final_poly_len, max_log_arity: a, num_queries: 1, commit_pow_bits: 0, query_pow_bits: 0 };
+            let top = a + log_final_poly_len + 2;
+            v.push(PcsShape { params: p.clone(), rounds: vec![vec![MatSpec::new(top, 1, false)]] });
+            v.push(PcsShape { params: p, rounds: vec![vec![MatSpec::new(top, 2, true), MatSpec::new(top - a, 1, false)]] });
+        }
+    }
     for (k, p) in all_params().into_iter().filter(|p| p.log_final_poly_len == 0).enumerate() {
         // 48 parameter sets, three mixes rotating
         let mix: &[usize] = [&[2usize, 0][..], &[5, 3, 0], &[4, 0, 0]][k % 3];
